@@ -1069,6 +1069,47 @@ Fixpoint l_run (fuel : nat) (db : list (bytes * bytes)) (ops : list kvop) (t : n
   | o :: r => match l_apply fuel db t o with Some t' => l_run fuel db r t' | None => None end
   end.
 
+(* the same with the dirty flag of the trie (was any node rebuilt?) *)
+Definition l_apply_d (fuel : nat) (db : list (bytes * bytes)) (st : bool * node) (o : kvop) : option (bool * node) :=
+  let (d, t) := st in
+  let r := match o with
+           | KUpdate k [] => ldelete fuel db t (keybytes_to_hex k)
+           | KUpdate k v => linsert fuel db t (keybytes_to_hex k) (Val v)
+           | KDelete k => ldelete fuel db t (keybytes_to_hex k)
+           end in
+  match r with Some (d', t') => Some (d || d', t') | None => None end.
+
+Fixpoint l_run_d (fuel : nat) (db : list (bytes * bytes)) (ops : list kvop) (st : bool * node) : option (bool * node) :=
+  match ops with
+  | [] => Some st
+  | o :: r => match l_apply_d fuel db st o with Some st' => l_run_d fuel db r st' | None => None end
+  end.
+
+(* Trie.Commit: the Database.insert calls it issues, in order (children before
+   parents, the root last and always); a trie none of whose nodes was rebuilt
+   since it was opened inserts nothing; unloaded (hash) nodes are skipped *)
+Definition commit_seq (H : bytes -> bytes) (lt : node) (dirty : bool) : list (bytes * bytes) :=
+  if dirty then commit H lt else [].
+
+(* trie.New(base) ; updates ; Commit : the new root and the insert sequence *)
+Definition trie_build (H : bytes -> bytes) (fuel : nat) (blobs : list (bytes * bytes)) (base : bytes) (ops : list kvop)
+  : option (bytes * list (bytes * bytes)) :=
+  match (match base with [] => Some Empty | _ => l_open blobs base end) with
+  | None => None
+  | Some lt0 =>
+    match l_run_d fuel blobs ops (false, lt0) with
+    | None => None
+    | Some (d, lt) => Some (root_hash H lt, commit_seq H lt d)
+    end
+  end.
+
+(* the entries of an insert sequence that Database.insert does not skip *)
+Fixpoint fresh_entries (known : list bytes) (seq : list (bytes * bytes)) : list (bytes * bytes) :=
+  match seq with
+  | [] => []
+  | (h, b) :: r => if existsb (list_eqb h) known then fresh_entries known r else (h, b) :: fresh_entries (h :: known) r
+  end.
+
 (* DeriveSha as a history: item i is stored under rlp(i) *)
 Fixpoint derive_ops (i : N) (items : list bytes) : list kvop :=
   match items with
@@ -1154,9 +1195,22 @@ Inductive op :=
 | ODerive (items : list bytes) (root : bytes)                          (* types.DeriveSha *)
 | OKeccak (data h : bytes).                                            (* the table's hash really is Keccak-256 *)
 
+(* merge node stores, first occurrence of a hash wins (Database.insert skips known hashes) *)
+Fixpoint db_merge (db add : list (bytes * bytes)) : list (bytes * bytes) :=
+  match add with
+  | [] => db
+  | (h, b) :: r => match assoc db h with
+                   | Some _ => db_merge db r
+                   | None => db_merge (db ++ [(h, b)]) r
+                   end
+  end.
+
 (* database schedules *)
 Inductive gop :=
-| GInsert (nodes : list (bytes * bytes))       (* the nodes a Trie.Commit inserted, in order *)
+| GInsert (nodes : list (bytes * bytes))       (* raw Database.insert calls *)
+| GBuild (base : bytes) (ops : list kvop) (root : bytes) (inserted : list (bytes * bytes))
+                                               (* trie.New(base), updates, Trie.Commit: observed root and the nodes the
+                                                  real Database.insert calls appended to the flush-list, in order *)
 | GReference (child parent : bytes)
 | GDereference (root : bytes)
 | GCap (limit : N)
@@ -1164,16 +1218,30 @@ Inductive gop :=
 | GObserve (flush : list (bytes * N)) (meta : list (bytes * N)) (disk : list bytes).
                                                (* flush-list (hash, parents) oldest first; meta root children; disk keys *)
 
-Definition gstep (s : dbstate * bool) (o : gop) : dbstate * bool :=
-  let (st, ok) := s in
+Record gstate := mkG { g_db : dbstate; g_blobs : list (bytes * bytes); g_ok : bool }.
+
+Definition gstep (H : bytes -> bytes) (s : gstate) (o : gop) : gstate :=
+  let st := g_db s in
+  let ok := g_ok s in
+  let same (st' : dbstate) := mkG st' (g_blobs s) ok in
   match o with
-  | GInsert nodes => (fold_left db_insert nodes st, ok)
-  | GReference c p => (db_reference st c p, ok)
-  | GDereference r => (db_dereference st r, ok)
-  | GCap l => (db_cap st l, ok)
-  | GCommit r => (db_commit st r, ok)
+  | GInsert nodes => mkG (fold_left db_insert nodes st) (db_merge (g_blobs s) nodes) ok
+  | GBuild base ops root inserted =>
+    match trie_build H 400 (g_blobs s) base ops with
+    | None => mkG st (g_blobs s) false
+    | Some (r, seq) =>
+      mkG (fold_left db_insert seq st) (db_merge (g_blobs s) seq)
+          (ok && list_eqb r root
+              && list_eqb_by (fun a b => list_eqb (fst a) (fst b) && list_eqb (snd a) (snd b))
+                             (fresh_entries (map cn_hash (db_nodes st)) seq) inserted)
+    end
+  | GReference c p => same (db_reference st c p)
+  | GDereference r => same (db_dereference st r)
+  | GCap l => same (db_cap st l)
+  | GCommit r => same (db_commit st r)
   | GObserve flush meta disk =>
-    (st, ok
+    mkG st (g_blobs s)
+        (ok
          && list_eqb_by (fun a b => list_eqb (fst a) (fst b) && N.eqb (snd a) (snd b))
                         (map (fun c => (cn_hash c, cn_parents c)) (db_nodes st)) flush
          && forallb (fun p => N.eqb (ext_get meta (fst p)) (snd p)) (db_meta st)
@@ -1191,16 +1259,6 @@ Record case := mkCase {
 
 Definition tab_hash (tab : list (bytes * bytes)) (e : bytes) : bytes :=
   match assoc tab e with Some h => h | None => keccak256 e end.
-
-(* merge node stores, first occurrence of a hash wins (Database.insert skips known hashes) *)
-Fixpoint db_merge (db add : list (bytes * bytes)) : list (bytes * bytes) :=
-  match add with
-  | [] => db
-  | (h, b) :: r => match assoc db h with
-                   | Some _ => db_merge db r
-                   | None => db_merge (db ++ [(h, b)]) r
-                   end
-  end.
 
 Definition db_subset (a b : list (bytes * bytes)) : bool :=
   forallb (fun p => obytes_eqb (assoc b (fst p)) (Some (snd p))) a.
@@ -1257,7 +1315,7 @@ Definition run_op (H : bytes -> bytes) (secure : bool) (s : rstate) (o : op) : r
 
 Definition case_ok (c : case) : bool :=
   r_ok (fold_left (run_op (tab_hash (c_tab c)) (c_secure c)) (c_ops c) (mkR Empty [] true))
-  && snd (fold_left gstep (c_gops c) (db_empty, true)).
+  && g_ok (fold_left (gstep (tab_hash (c_tab c))) (c_gops c) (mkG db_empty [] true)).
 
 Fixpoint mismatches_from (i : N) (l : list case) : list N :=
   match l with
